@@ -5,7 +5,7 @@ from ..flow import standard_flow
 
 NH = {"quick": 70, "thorough": 1500}
 INPUT = ("index", "seed", "max", "players", "ante", "dealer_blind", "sb", "bb", "action_time", "fault_pct", "auto_fault", "auto_at",
-         "illegal_pct", "extend_pct", "hands", "first_dealer", "withhold", "started_backend", "late_extend_pct", "pause_pct", "withhold_at", "state_with_error")
+         "illegal_pct", "extend_pct", "hands", "first_dealer", "withhold", "started_backend", "late_extend_pct", "pause_pct", "withhold_at", "state_with_error", "bystander_leave_pct", "participant_leave_pct")
 CODES = {2: "model-vs-implementation", 3: "C10 monitor", 4: "C13 monitor", 5: "C14 monitor", 6: "C15 monitor", 7: "C11 monitor"}
 STATS_BASE = 5000
 
@@ -52,7 +52,10 @@ def run_hand(res, codes, clause_names, replay=None, signature=lambda c, s: None,
         return c in codes
 
     def describe(case, step, c):
-        if c == 2:
+        if c == 9:
+            idx = step
+            what = "the hand's entries no longer denote the same players (C02 stability): actions are attributed to / accepted from the wrong player"
+        elif c == 2:
             idx = step - STATS_BASE if step >= STATS_BASE else step
             what = "statistics after an accepted action differ from the model's interpretation of the regenerated update statements" if step >= STATS_BASE \
                 else "accept/refuse verdict differs from the model (decide)"
@@ -61,7 +64,7 @@ def run_hand(res, codes, clause_names, replay=None, signature=lambda c, s: None,
             what = CODES.get(c, c)
         steps = case.get("steps") or []
         d = {"code": what, "history_index": case["index"], "failing_step": idx, "config": unit(case)}
-        if c != 2:
+        if c not in (2, 9):
             d["failing_clause"] = clause_names.get((c, step % 10), step % 10)
         d["steps_up_to_failure"] = steps[max(0, idx - 2): idx + 1]
         return d
